@@ -335,6 +335,25 @@ def _s(s):
     s.out, s.out_name = c, "c"
 
 
+@scenario("param.cat.rows", "torchtree.core.parameter.CatParameter")
+def _s(s):
+    """concatenation along the FIRST axis (the constructor's default dim=0) of two-dimensional components"""
+    from torchtree.core.parameter import CatParameter
+    a = s.P("a", [[0.5, 1.5, 2.5]], "real")
+    b = s.P("b", [[3.5, 4.5, 5.5], [6.5, 7.5, 8.5]], "real")
+    c = s.D("c", CatParameter("c", [a, b], 0), "real")
+    s.out, s.out_name = c, "c"
+
+
+@scenario("param.cat.default_dim", "torchtree.core.parameter.CatParameter")
+def _s(s):
+    from torchtree.core.parameter import CatParameter
+    a = s.P("a", [0.5, 1.5], "real")
+    b = s.P("b", [2.5], "real")
+    c = s.D("c", CatParameter("c", [a, b]), "real")
+    s.out, s.out_name = c, "c"
+
+
 @scenario("param.transformed.exp", "torchtree.core.parameter.TransformedParameter")
 def _s(s):
     from torchtree.core.parameter import TransformedParameter
@@ -1146,7 +1165,16 @@ def _fmt(v):
 def compare_with_fresh(s, labels, step, seed=12345):
     """evaluate `labels` on the live graph and on a freshly built copy holding the same base-parameter values"""
     out = []
-    fresh = build(s.name, s.state())
+    try:
+        fresh = build(s.name, s.state())
+    except Exception as e:
+        # the updates left the base parameters with values no model can be built from (e.g. an assignment through a derived parameter
+        # handed a component a tensor of another shape): the state itself is the discrepancy
+        shapes = {n: list(p.tensor.shape) for n, p in s.params.items()}
+        if shapes == {n: list(p.tensor.shape) for n, p in build(s.name).params.items()}:
+            raise
+        return [{"step": step, "eval": "(state)", "kind": "inconsistent-state", "live": "parameter shapes %s" % shapes,
+                 "fresh": "cannot be built from these values: %s: %s" % (type(e).__name__, str(e)[:120])}]
     for lab in labels:
         a = _evaluate(s, lab, seed)
         b = _evaluate(fresh, lab, seed)
